@@ -349,10 +349,13 @@ func (r *checkRun) runUnit(u *UnitSpec, ts TierSpec) {
 		opt.Fallback = []string{"z3new", "cvc5int", "cvc5"}
 	}
 	budget := ts.BudgetS
-	if budget == 0 && r.tier == "quick" {
+	if budget == 0 {
 		// safety net for mutated trees whose state space explodes: report what was found so far and
-		// say that the bound was not exhausted (never reached on the unchanged tree)
+		// say that the bound was not exhausted (never reached on the unchanged tree at the registered bounds)
 		budget = 600
+		if r.tier != "quick" {
+			budget = 1800
+		}
 	}
 	if budget > 0 {
 		opt.Deadline = time.Now().Add(time.Duration(budget) * time.Second)
